@@ -107,3 +107,38 @@ package mq
 //@   requires mqok(a)
 //@   ensures result == cs(a.cleared) && a.cleared == cs(a.cleared)
 //@   modifies MQ.closed, MQ.cleared, a.ctrlList.lmem, a.ctrlList.lcnt, a.reqList.lmem, a.reqList.lcnt, list.Element.lrk, list.Element.Value, region($chanclosed), region($alloc)
+//
+// ---- the retrying adds: every attempt that found the level full left the queue unchanged (AddCtrl/AddReq contract), the
+// attempt that ends the loop is the one described: the item is added once, at the back, or the queue was closed.
+// cs() is the state at the beginning of that last attempt's critical section. Termination (a full queue is eventually
+// drained) is liveness and not decided.
+//@ func MQ.AddCtrlAnyway
+//@   requires mqok(a)
+//@   ensures #neverfull result != ErrCtrlQFull
+//@   ensures #refused result != nil ==> result == ErrClosed && cs(a.closed) && same(a.ctrlList)
+//@   ensures #added result == nil ==> !cs(a.closed) && a.ctrlList.lcnt == cs(a.ctrlList.lcnt) + 1 && kept(a.ctrlList) && atback(a.ctrlList, cmd)
+//@   ensures #nolost nolost(a.ctrlList) && same(a.reqList) && a.closed == cs(a.closed)
+//@   modifies MQ.closed, MQ.cleared, list.List.lmem, list.List.lcnt, list.Element.lrk, list.Element.Value, region($chanclosed), region($alloc)
+//@   loop 1
+//@     invariant mqok(a)
+//@ func MQ.AddReqAnyway
+//@   requires mqok(a)
+//@   ensures #neverfull result != ErrReqQFull
+//@   ensures #refused result != nil ==> result == ErrClosed && cs(a.closed) && same(a.reqList)
+//@   ensures #added result == nil ==> !cs(a.closed) && a.reqList.lcnt == cs(a.reqList.lcnt) + 1 && kept(a.reqList) && atback(a.reqList, req)
+//@   ensures #nolost nolost(a.reqList) && same(a.ctrlList) && a.closed == cs(a.closed)
+//@   modifies MQ.closed, MQ.cleared, list.List.lmem, list.List.lcnt, list.Element.lrk, list.Element.Value, region($chanclosed), region($alloc)
+//@   loop 1
+//@     invariant mqok(a)
+// WaitClose / WaitClear: return nil only once the stop (clear) channel is closed - which the monitor invariant ties to
+// closed (cleared) -, otherwise the caller's own context error
+//@ func MQ.WaitClose
+//@   requires a != nil && !held(a.lock)
+//@   ensures #stopped result == nil ==> chanclosed(a.stopChan)
+//@   ensures #ctx result != nil ==> chanclosed(ctxdone(ctx))
+//@   modifies region($chanclosed)
+//@ func MQ.WaitClear
+//@   requires a != nil && !held(a.lock)
+//@   ensures #cleared result == nil ==> chanclosed(a.clearChan)
+//@   ensures #ctx result != nil ==> chanclosed(ctxdone(ctx))
+//@   modifies region($chanclosed)
